@@ -270,10 +270,78 @@ pub fn c14(tier: Tier, seed: u64) -> i32 {
     rep.finish()
 }
 
+/// Directed bundle scenario: all 256 indexes of a bundle opened (the count of open positions leaves a byte),
+/// deletion attempted at 256, 255, 1 and 0 open positions; every step goes through the C18 monitor.
+fn c18_full_bundle(seed: u64) -> Acc {
+    use crate::ix::build as b;
+    use crate::monitors::c18::C18;
+    use crate::world::*;
+    use solana_program::system_program;
+    let mut acc = Acc::default();
+    let mut mon = C18;
+    let mut w = World::new(crate::rnd::rng(seed));
+    let c = w.add_config(300);
+    let u = w.add_user();
+    let (m1, m2) = (w.add_spl_mint(6), w.add_spl_mint(6));
+    let Ok(p) = w.add_pool(c, m1, m2, 64, 3000, 1u128 << 64, false) else {
+        acc.count("harness_errors");
+        return acc;
+    };
+    let pool = w.pools[p].key;
+    let ownerk = w.users[u].key;
+    let mint = w.new_key();
+    let ta = b::pda_associated_token(ownerk, mint, TOKEN).0;
+    let bundle = b::pda_position_bundle(mint).0;
+    let mut run = |w: &mut World, ix: crate::ix::Ix, acc: &mut Acc| -> bool {
+        let o = w.exec(ix);
+        acc.evaluations += 1;
+        crate::hist::Monitor::after(&mut mon, w, &o, acc);
+        o.ok()
+    };
+    if !run(&mut w, b::InitializePositionBundle { position_bundle: bundle, position_bundle_mint: mint, position_bundle_token_account: ta, position_bundle_owner: ownerk, funder: ADMIN, token_program: TOKEN, system_program: system_program::ID, rent: RENT_ID, associated_token_program: ATA }.ix(), &mut acc) {
+        acc.count("harness_errors");
+        return acc;
+    }
+    let delete = || b::DeletePositionBundle { position_bundle: bundle, position_bundle_mint: mint, position_bundle_token_account: ta, position_bundle_owner: ownerk, receiver: ownerk, token_program: TOKEN }.ix();
+    let open = |idx: u16| b::OpenBundledPosition { bundled_position: b::pda_bundled_position_u16(mint, idx).0, position_bundle: bundle, position_bundle_token_account: ta, position_bundle_authority: ownerk, whirlpool: pool, funder: ADMIN, system_program: system_program::ID, rent: RENT_ID }.ix(idx, -640, 640);
+    let close = |idx: u16| b::CloseBundledPosition { bundled_position: b::pda_bundled_position_u16(mint, idx).0, position_bundle: bundle, position_bundle_token_account: ta, position_bundle_authority: ownerk, receiver: ownerk }.ix(idx);
+    let mut order: Vec<u16> = (0..256).collect();
+    {
+        use rand::seq::SliceRandom;
+        order.shuffle(&mut w.r);
+    }
+    for (n, idx) in order.iter().enumerate() {
+        if !run(&mut w, open(*idx), &mut acc) {
+            acc.count("harness_errors");
+        }
+        if n == 0 || n == 127 || n == 254 || n == 255 {
+            // the monitor flags a deletion that goes through while positions are open
+            if !run(&mut w, delete(), &mut acc) {
+                acc.count("full_bundle_delete_refusals");
+            }
+        }
+    }
+    acc.count("bundles_filled_completely");
+    for (n, idx) in order.iter().enumerate() {
+        if !run(&mut w, close(*idx), &mut acc) {
+            acc.count("harness_errors");
+        }
+        if n == 0 || n == 128 || n == 254 {
+            if !run(&mut w, delete(), &mut acc) {
+                acc.count("full_bundle_delete_refusals");
+            }
+        }
+    }
+    if run(&mut w, delete(), &mut acc) {
+        acc.count("empty_bundle_deleted");
+    }
+    acc
+}
+
 pub fn c18(tier: Tier, seed: u64) -> i32 {
     use crate::monitors::c18::C18;
     let mut rep = Report::new("C18", tier, seed);
-    rep.rule = "history workload with lifecycle operations up-weighted (open x3 flavours + bundled incl. bounds left to be derived from the price, both sentinels, wrong-side sentinels; increase/decrease/collect; close x3; reset range incl. same / inverted / unaligned ranges; reposition; lock; transfer-locked; bundles at all 256 indexes and 256; delete bundle): every lifecycle instruction is judged on decoded pre/post state by rules taken from the statement: one position token, no mint authority, valid range, derived bounds equal the model's nearest usable tick on one side of the price, close only when empty and not locked, re-range only when empty (reset) to a different valid range with checkpoints reset, owed amounts survive reposition, locked positions reject decrease/close/reset/reposition but still accept increase/collect (differential against the same state unfrozen), only positions with liquidity lock, bundle bitmap == open bundled positions found in the bank, bundle deletion only when none is open. distinct = (instruction, outcome, predicate values)".into();
+    rep.rule = "directed scenario: one bundle filled to all 256 indexes in random order with deletion attempted at 1, 128, 255, 256 open positions and again while emptying it; history workload with lifecycle operations up-weighted (open x3 flavours + bundled incl. bounds left to be derived from the price, both sentinels, wrong-side sentinels; increase/decrease/collect; close x3; reset range incl. same / inverted / unaligned ranges; reposition; lock; transfer-locked; bundles at all 256 indexes and 256; delete bundle): every lifecycle instruction is judged on decoded pre/post state by rules taken from the statement: one position token, no mint authority, valid range, derived bounds equal the model's nearest usable tick on one side of the price, close only when empty and not locked, re-range only when empty (reset) to a different valid range with checkpoints reset, owed amounts survive reposition, locked positions reject decrease/close/reset/reposition but still accept increase/collect (differential against the same state unfrozen), only positions with liquidity lock, bundle bitmap == open bundled positions found in the bank, bundle deletion only when none is open. distinct = (instruction, outcome, predicate values)".into();
     rep.assumptions = vec![SVM_ASSUMPTION.into(), "the Metaplex metadata CPI of *_with_metadata runs against a recording stub".into()];
     let per_shard = tier.pick(64, 1600);
     let acc = run_histories(
@@ -282,7 +350,12 @@ pub fn c18(tier: Tier, seed: u64) -> i32 {
         move |_r| HistCfg { ops: 150, spl_only: false, lifecycle_ext: true, w_swap: 20, w_liq: 22, w_fees: 8, w_lifecycle: 45, w_clock: 2, w_setters: 1, w_reward: 4, ..Default::default() },
         || vec![Box::new(C18) as Box<dyn Monitor>],
     );
+    let mut acc = acc;
+    acc.merge(c18_full_bundle(seed ^ 0x18));
     rep.acc = acc;
+    rep.floor("bundles_filled_completely", 1);
+    rep.floor("full_bundle_delete_refusals", 7);
+    rep.floor("empty_bundle_deleted", 1);
     rep.floor("opens_seen", 3000);
     rep.floor("opens_with_derived_bound", 300);
     rep.floor("closes_ok", 300);
